@@ -232,6 +232,8 @@ type appT struct {
 }
 
 type histT struct {
+	OOOOnly   int   `json:"ooo_only_series"`
+	Idle      int   `json:"idle_series"`
 	Cfg       cfgT  `json:"cfg"`
 	FirstSnap bool  `json:"first_snap"`
 	Ops       []opT `json:"ops"`
@@ -253,6 +255,25 @@ func genHistory(r *gen.Rand) histT {
 	for i := 0; i < h.Cfg.NSeries; i++ {
 		used[i] = map[int64]bool{}
 	}
+	// series classes: an out-of-order-only series (created by samples older than
+	// headMaxt - chunkRange/2 inside the window, never an in-order head chunk; with
+	// OutOfOrderCapMax = 4 its fifth sample m-maps an OOO chunk) and a series that is idle from the
+	// first third of the history on (its chunks get m-mapped / compacted away around it)
+	oooOnly, idle := -1, -1
+	if h.Cfg.NSeries >= 2 && r.Chance(3, 5) {
+		oooOnly = h.Cfg.NSeries - 1
+		if h.Cfg.OOOWindow < 2500 {
+			h.Cfg.OOOWindow = r.PickI64(2500, 100000)
+		}
+		if h.Cfg.SPC > 5 {
+			h.Cfg.SPC = int(r.PickI64(2, 3, 5))
+		}
+	}
+	if h.Cfg.NSeries >= 2 && r.Chance(1, 3) {
+		idle = 0
+	}
+	h.OOOOnly, h.Idle = oooOnly, idle
+	headData := false
 	val := int64(0)
 	type delT struct {
 		sel  int
@@ -277,7 +298,41 @@ func genHistory(r *gen.Rand) histT {
 			k := 1 + r.Intn(4)
 			for j := 0; j < k; j++ {
 				s := r.Intn(h.Cfg.NSeries)
+				if oooOnly >= 0 && r.Chance(1, 3) {
+					s = oooOnly
+				}
+				if s == idle && i > n/3 {
+					s = (s + 1) % h.Cfg.NSeries
+				}
+				if s == oooOnly && !headData {
+					s = 0 // an OOO-only series needs a head max time to be behind
+				}
 				var t int64
+				if s == oooOnly {
+					back := r.Range(h.Cfg.BlockRange/2+50, 2400)
+					t = now - back
+					for used[s][t] || underDelete(s, t) {
+						t++
+					}
+					if t >= now-h.Cfg.BlockRange/2 {
+						continue
+					}
+					// a burst: with OutOfOrderCapMax = 4 the fifth sample m-maps an OOO chunk
+					for b := 1 + r.Intn(4); b > 0; b-- {
+						for used[s][t] || underDelete(s, t) {
+							t++
+						}
+						if t >= now-h.Cfg.BlockRange/2 {
+							break
+						}
+						used[s][t] = true
+						val++
+						o.App = append(o.App, appT{S: s, T: t, V: val, Ex: false})
+						t += r.Range(1, 30)
+					}
+					continue
+				}
+				headData = true
 				if r.Chance(3, 4) {
 					now += r.Range(1, step)
 					t = now
@@ -560,10 +615,15 @@ type obsT struct {
 	Behind   bool // "Last WAL file is behind snapshot"
 	ChunkErr bool // "Loading on-disk chunks failed"
 	MV       int64
+	HS       answer // head state: per series the in-order samples >= minValidTime and the OOO samples, sorted
+	HSok     bool
 	OOO      map[int][]smp
 	Blk      map[int][]smp
 	Err      string
 	Panic    bool
+	// classes of series present after the restart (reported for variant a)
+	OOOOnlyMmapped bool // a series without in-order chunk but with an m-mapped out-of-order chunk
+	NoHeadChunk    bool // a series whose in-order chunks are all m-mapped (no head chunk)
 }
 
 func observe(dir string, c cfgT, snap bool, full bool) (o *obsT) {
@@ -610,6 +670,58 @@ func observe(dir string, c cfgT, snap bool, full bool) (o *obsT) {
 			o.Err = "exemplars: " + err.Error()
 			return o
 		}
+	}
+	{
+		mv := db.Head().VerifMinValidTime()
+		o.HS = answer{}
+		for _, s := range db.Head().VerifDump() {
+			l := lblOf(s.Labels)
+			seen := map[smp]bool{}
+			var ss []smp
+			add := func(x smp) {
+				if !seen[x] {
+					seen[x] = true
+					ss = append(ss, x)
+				}
+			}
+			for _, ch := range s.InOrder {
+				for _, x := range ch.Samples {
+					if x.T >= mv {
+						add(smp{x.T, int64(x.V)})
+					}
+				}
+			}
+			for _, ch := range s.OOO {
+				for _, x := range ch.Samples {
+					add(smp{x.T, int64(x.V)})
+				}
+			}
+			sort.Slice(ss, func(i, j int) bool {
+				if ss[i].T != ss[j].T {
+					return ss[i].T < ss[j].T
+				}
+				return ss[i].V < ss[j].V
+			})
+			if len(ss) > 0 {
+				o.HS[l] = ss
+			}
+		}
+		for _, s := range db.Head().VerifDump() {
+			mm := false
+			for _, ch := range s.OOO {
+				mm = mm || ch.Mmapped
+			}
+			if len(s.InOrder) == 0 && mm {
+				o.OOOOnlyMmapped = true
+			}
+			if len(s.InOrder) > 0 && !s.InOrder[len(s.InOrder)-1].Mmapped {
+				continue
+			}
+			if len(s.InOrder) > 0 {
+				o.NoHeadChunk = true
+			}
+		}
+		o.HSok = true
 	}
 	if full {
 		o.MV = db.Head().VerifMinValidTime()
@@ -979,7 +1091,7 @@ func main() {
 	cf := &gallina.CaseFile{Dir: f.Out, Type: "case", PerShard: 40,
 		Preamble: "From Coq Require Import List ZArith Bool Uint63.\nFrom Verif Require Import model.Snapshot corr.CorrC23.\nImport ListNotations.\nOpen Scope Z_scope.\n",
 		Footer:   gallina.StdFooter}
-	n := f.Count(2, 78)
+	n := f.Count(6, 76)
 	debug := os.Getenv("C23_DEBUG") != ""
 	scratch, err := os.MkdirTemp(f.Out, "c23_")
 	if err != nil {
@@ -1205,6 +1317,8 @@ func main() {
 		flag(ob != nil && len(ob.OOO) > 0, "ooo-head-data")
 		flag(ob != nil && len(ob.Blk) > 0, "blocks")
 		flag(len(dmp.Chunks) > 0, "mmapped-chunks")
+		flag(oa != nil && oa.OOOOnlyMmapped, "ooo-only-series-with-mmapped-chunk")
+		flag(oa != nil && oa.NoHeadChunk, "series-without-head-chunk")
 		nsamp := 0
 		for _, e := range dmp.WAL {
 			if e.Kind == "s" {
@@ -1300,7 +1414,13 @@ func main() {
 			lets = append(lets, fmt.Sprintf("let %s : option answer := %s in", n, g))
 			return n
 		}
-		qs := []string{share(oa), share(ob), share(ooff), share(oc), share(od1), share(od2), share(oe), share(oe2)}
+		hs := func(o *obsT) *obsT {
+			if o == nil || o.Err != "" || !o.HSok {
+				return nil
+			}
+			return &obsT{Q: o.HS}
+		}
+		qs := []string{share(oa), share(ob), share(ooff), share(oc), share(od1), share(od2), share(oe), share(oe2), share(hs(oa)), share(hs(ob))}
 		term := fmt.Sprintf("(%s\n mkCase %s %s %s\n  %s\n  %s %s %s)", strings.Join(lets, "\n "),
 			gz(int64(i)), gallina.Bool(dmp.MultiRef), gDump(dmp, ob.MV, ob.OOO, ob.Blk, h.Cfg.NSeries),
 			strings.Join(qs, " "),
@@ -1331,6 +1451,10 @@ func corpusHistories() []corpusT {
 			tx(appT{0, 100, 1, false}, appT{0, 200, 2, false}), {K: "restart", Snap: false},
 			tx(appT{0, 300, 3, false}, appT{0, 400, 4, false}, appT{0, 500, 5, false}, appT{0, 600, 6, false}),
 			{K: "del", Mint: 0, Maxt: 150, Sel: 0}, {K: "restart", Snap: true}, tx(appT{0, 700, 7, false})}}},
+		{"ooo-only-series", histT{OOOOnly: 1, Idle: -1, Cfg: cfgT{BlockRange: 1000, OOOWindow: 100000, SPC: 3, MaxEx: 8, NSeries: 2}, FirstSnap: true, Ops: []opT{
+			tx(appT{0, 5000, 1, false}), tx(appT{0, 5100, 2, false}),
+			tx(appT{1, 3000, 3, true}, appT{1, 3010, 4, false}, appT{1, 3020, 5, false}), tx(appT{1, 3030, 6, false}, appT{1, 3040, 7, false}),
+			tx(appT{1, 3050, 8, false}, appT{1, 2990, 9, false}), tx(appT{0, 5200, 10, false})}}},
 		{"outdated-snapshot-nonpositive", histT{Cfg: cfgT{BlockRange: 1000, OOOWindow: 0, SPC: 120, MaxEx: 0, NSeries: 1}, FirstSnap: true, Ops: []opT{
 			tx(appT{0, -300, 1, false}), {K: "restart", Snap: false}, tx(appT{0, -200, 2, false}), tx(appT{0, 0, 3, false}), tx(appT{0, 1, 4, false})}}},
 		{"recreated-series", histT{Cfg: cfgT{BlockRange: 1000, OOOWindow: 0, SPC: 2, MaxEx: 0, NSeries: 2}, FirstSnap: false, Ops: []opT{
